@@ -113,15 +113,48 @@ NEEDS.update({
  "C19F":("absolute_target folds '..' textually","target spelled through a directory symlink followed by '..': the stored link names the wrong path"),
  "C20E":("poll_write returns a stale, larger write count","a write future dropped in flight, then write_all with a shorter buffer: panics 'mid > len'"),
  "C20F":("bucket line parser uses split_at(64)","a valid-UTF-8 line with a multi-byte character across byte 64: every reader of that bucket panics"),
+ "C01G":("sync read(): open + presize from metadata, read and integrity check only inside `if len > 0`","content file of a non-empty entry emptied to 0 bytes, read through read_sync / read_hash_sync"),
+ "C01H":("async hard_link by key falls back to the unchecked copy on any error when the destination is absent","damaged content + the async hard_link entry point: the integrity error is swallowed, damaged bytes delivered with Ok"),
+ "C02H":("process-wide memo of content shard directories already created","one process: write X, clear (or the cache directory deleted), write the same bytes again -> ENOENT"),
+ "C03H":("async poll_write hashes the caller's current buffer at the reporting poll instead of the bytes handed to the blocking write","a write future dropped mid-flight, then further writes / flush / commit: file holds the abandoned bytes, address digests other data"),
+ "C04H":("async write()/write_with_algo() store the content and append the index record concurrently (join!)","a kill or I/O fault after the index append and before the content rename - only in schedules where the pool thread of the index append wins"),
+ "C06G":("insert skips the append when the bucket already ends with the entry's JSON (checksum and newline not compared)","the last record damaged in its checksum or leading newline, then a byte-identical re-insert"),
+ "C06H":("bucket readers stable-sort the parsed records by time","times that do not increase along the file: explicit backwards times, a removal stamped in the future, an old record duplicated at the end"),
+ "C07G":("the first writer a process creates for a cache sweeps <cache>/tmp","two processes: P's first write deletes the temp file of a writer still open in Q; Q's commit fails"),
+ "C07H":("insert truncates a bucket over 128 KiB with set_len(0) before appending","a key with a long history and a reader scheduled between the truncate and the append: a never-removed key is absent"),
+ "C08G":("async Writer forwards poll_write_vectored to the inner writer without counting the bytes","write_vectored with a declared size: a correct declaration is rejected, a too-small one accepted"),
+ "C09G":("process-wide memo of content paths seen present answers exists(); remove_fully does not invalidate it","one process: write, exists (true), remove_fully, exists -> still true"),
+ "C09H":("clear skips top-level entries whose DirEntry::file_type() is not a directory","a cache whose content-v2 or index-v5 is a symlink to a directory elsewhere: clear leaves it"),
+ "C10G":("find/find_async skip bucket lines that do not contain \"key\":\"<raw key>\" before parsing","a key that JSON escapes (quote, backslash, tab, newline): listed, but lookups return None"),
+ "C10H":("ls reads each bucket with read_to_string and treats an invalid-UTF-8 read as an empty bucket","an index append cut inside a multi-byte character (non-ASCII key): lookup finds the key, listing drops it"),
+ "C11G":("the sync bucket reader seeks to the last 64 KiB of the bucket file","an entry whose line is longer than 64 KiB: lost to metadata_sync / read_sync / list_sync"),
+ "C11H":("sync insert writes the record through a BufWriter (two write calls from 8 KiB)","two writers committing one key concurrently with records of 8 KiB or more: interleaved lines (a C07 break)"),
+ "C12G":("AsyncWriter::new memoises created <cache>/tmp directories per process","write, clear, another async write in one process: async fails, sync succeeds"),
+ "C12H":("find_async takes the newest line of the key and then parses its integrity; sync find folds","newest record with a valid checksum and an integrity text that does not parse: async None, sync the earlier record"),
+ "C13G":("process-wide memo of created content directories, recorded before the mkdir has succeeded","one failing mkdir of a content directory, then the same write again in the same process: ENOENT at the rename forever"),
+ "C13H":("list_sync turns every directory-walk error below the index root into 'no entries'","a failing open of a bucket directory during the walk (EMFILE, EACCES, EIO): entries silently omitted"),
+ "C14G":("SyncWriter::commit: sized.and(index::insert(..)) evaluates the insert eagerly","sync keyed writer with a declared size that differs from the bytes written: SizeMismatch returned, entry appended"),
+ "C14H":("sync insert builds the line in a thread-local buffer cleared only after a successful insert","an insert that fails at the open or write of its bucket, then the same thread's next successful insert: the failed key's record rides along"),
+ "C15G":("bucket_path built with format!(\"{}\", cache.display())","a cache directory whose path is not valid UTF-8: index files go to a sibling directory named with U+FFFD"),
+ "C15H":("insert_async and bucket_entries_async share a helper that opens with read+create+append","an async lookup of a key whose bucket file is missing but whose directory exists: creates an empty bucket file"),
+ "C16G":("process-wide memo of content paths already persisted lets close skip the rename; only remove_hash clears it","one process: store bytes, clear / remove_fully / external deletion, store the same bytes again: address returned, no file"),
+ "C17H":("content_path built with format!(\"{}\", cache.display())","a cache directory whose path is not valid UTF-8: content goes to a sibling directory; the library reads its own data, nobody else finds it"),
+ "C18G":("sync checked copy / hard_link verify content up to 1 MiB through an mmap helper whose zero-length case returns Ok","a non-empty entry whose content file was truncated to 0 bytes: checked sync copy / hard link succeed"),
+ "C18H":("copy_unchecked_async runs in spawn_blocking with display().to_string() paths","an async copy entry point and a destination or cache path that is not valid UTF-8: Ok, bytes land in a file named with U+FFFD"),
+ "C19G":("absolute_target caches current_dir() in a process-wide OnceLock","one process links a relative target, changes its working directory, links another relative target"),
+ "C19H":("async ToLinker::commit checks a declared integrity only if it has a hash of the linker's algorithm","async link_to with a declared integrity of another algorithm that is the address of other data: accepted"),
+ "C20G":("AsyncWriter scratch buffer grown with reserve(buf.len() - capacity())","one async writer fed chunks sized large, then small, then medium: subtract with overflow / capacity overflow panic"),
+ "C20H":("sync insert takes a <bucket>.lock file with create_new, retrying every 1 ms without bound","a lock file left behind (process killed mid-append): every later write/remove of that key hangs"),
  "F8":("re-introduces repaired defect F8: the sync bucket reader treats a failing read as end of file","one EIO on a read of a bucket: stale or partial results returned as success"),
  "H1":("hand-written must-catch of DESIGN section 3: content copied straight onto the content path instead of renamed","any write: the content path is visible before it holds the data"),
 })
 
 rows=[]
 HAND={'F8':'C13','H1':'C03'}
+OWN={'C11H':'C07'}
 for d in sorted(glob.glob(V+'/seeded/C*/'))+[V+'/seeded/F8/',V+'/seeded/H1/']:
     name=os.path.basename(d.rstrip('/'))
-    prop=HAND.get(name,name[:3])
+    prop=HAND.get(name,OWN.get(name,name[:3]))
     val=''
     try:
         val=[l for l in open(d+'validate.log', errors='replace') if l.startswith('RESULT')][-1].strip()
